@@ -346,3 +346,58 @@ func RunFree(c *RunConfig, r *rand.Rand, noise bool, w io.Writer) error {
 	}
 	return nil
 }
+
+// WithForcedSchedule runs body (which starts an fsloop over gate and waits for it)
+// under the schedule of the "prefix" counterexample: consumers are parked between
+// their two reads until the close step has been announced; the producers are held
+// at the gated ReadDir until the consumers are parked.
+func WithForcedSchedule(nCons int, gate *GatedFS, body func()) (parked int, announced bool) {
+	hookMu.Lock()
+	defer hookMu.Unlock()
+	var mu sync.Mutex
+	release := make(chan struct{})
+	allParked := make(chan struct{})
+	ann := make(chan struct{})
+	var annOnce, parkOnce, relOnce sync.Once
+	holding := true
+	fsloop.VerifHook = func(site string) {
+		switch site {
+		case "consumer.between":
+			mu.Lock()
+			if !holding {
+				mu.Unlock()
+				return
+			}
+			parked++
+			if parked >= nCons {
+				parkOnce.Do(func() { close(allParked) })
+			}
+			mu.Unlock()
+			<-release
+		case "closer.announced":
+			annOnce.Do(func() { close(ann) })
+		}
+	}
+	defer func() { fsloop.VerifHook = nil }()
+	done := make(chan struct{})
+	go func() { body(); close(done) }()
+	select {
+	case <-allParked:
+	case <-time.After(2 * time.Second):
+	}
+	mu.Lock()
+	holding = false
+	mu.Unlock()
+	gate.Open()
+	select {
+	case <-ann:
+		announced = true
+	case <-time.After(10 * time.Second):
+	}
+	relOnce.Do(func() { close(release) })
+	select {
+	case <-done:
+	case <-time.After(30 * time.Second):
+	}
+	return
+}
